@@ -69,6 +69,13 @@ def run_case(version, explicit_kind, transport, typ, until, C: Counter, raise_at
     elif explicit_kind == "minor_different":
         v = vlist(version)
         explicit = f"{v[0]}.{(v[1] if len(v) > 1 else 0) + 1}"
+    elif explicit_kind == "prefix":
+        # the configured version has fewer components than the announced one and is a prefix of it ("2" vs "2.2",
+        # "3.0" vs "3.0.1"); for a one-component version the configured one is longer ("3.0" vs "3")
+        v = vlist(version)
+        explicit = ".".join(map(str, v[:-1])) if len(v) > 1 else f"{v[0]}.0"
+    elif explicit_kind == "major_only":
+        explicit = str(vlist(version)[0])
     tmp = None
     cfg: Dict[str, Any] = {"version": version, "type": typ}
     if raise_at:
@@ -222,7 +229,7 @@ def run_slice(job: dict) -> dict:
 
     k = 0
     for version in VERSIONS:
-        for ek in ("none", "equal", "different", "minor_different"):
+        for ek in ("none", "equal", "different", "minor_different", "prefix", "major_only"):
             for transport in TRANSPORTS:
                 for typ in ("hybrid", None):
                     k += 1
